@@ -311,7 +311,35 @@ def w_dispatch(_):
     return acc.res()
 
 
+def w_poles(_):
+    """position decoders on frames whose decoded latitude is exactly a structural breakpoint (0, +-87, +-90 ...)."""
+    acc = Acc()
+    for latn, latd in ((87, 1), (-87, 1), (0, 1), (90, 1), (-90, 1), (869999, 10000), (6, 1), (-6, 1)):
+        for lon in (Fr(0), Fr(1125, 100), Fr(-180)):
+            for surface, tc in ((False, 11), (False, 22), (True, 7)):
+                lat = Fr(latn, latd)
+                e0, e1 = C.encode(lat, lon, 0, surface), C.encode(lat, lon, 1, surface)
+                mk = (lambda e, i: F.es(C.me_surface(tc, 5, 1, 3, i, e["yz"], e["xz"]) if surface else C.me_airborne(tc, 0xC38, i, e["yz"], e["xz"]), 0x406B90, 5, 17))
+                m0, m1 = mk(e0, 0), mk(e1, 1)
+                ref = (float(lat) - (0.3 if lat > 0 else -0.3), float(lon))
+                calls = [("position", (m0, m1, 2, 1) + (ref if surface else ())), ("position", (m0, m1, 1, 2) + (ref if surface else ())),
+                         ("position_with_ref", (m0,) + ref), ("position_with_ref", (m1,) + ref)]
+                calls += [("surface_position", (m0, m1, 2, 1) + ref)] if surface else [("airborne_position", (m1, m0, 1, 2))]
+                for fn, args in calls:
+                    acc.n += 1
+                    r = call(getattr(pms.adsb, fn), *args)
+                    bad = (r[0] == "exc" and r[1] != "RuntimeError") or (r[0] == "ok" and r[1] is not None and not (
+                        isinstance(r[1], tuple) and len(r[1]) == 2 and all(isinstance(x, float) and x == x for x in r[1])))
+                    if bad:
+                        acc.bad("adsb.%s:%s:breakpoint_latitude" % (fn, r[1] if r[0] == "exc" else "malformed_result"),
+                                {"kind": "pole", "fn": fn, "args": list(args)})
+                acc.out.add(("pole", latn, latd, tc))
+    return acc.res()
+
+
 def w_any(t):
+    if t[0] == "p":
+        return w_poles(None)
     if t[0] == "l":
         return w_lead(t[1])
     return w_dispatch(None) if t[0] == "d" else w_frames(t[1])
@@ -321,7 +349,7 @@ def run(ctx):
     import random
     rng = random.Random(ctx.seed)
     pays = [0, (1 << 48) - 1, 0x555555555555, 0xAAAAAAAAAAAA, rng.getrandbits(48), rng.getrandbits(48)]
-    tasks = [("d", None)]
+    tasks = [("d", None), ("p", None)]
     for df in range(32):
         tasks.append(("f", (0, [df], pays, ctx.thorough)))
     tasks += [("l", (df, tc)) for df in ((17, 18) if ctx.thorough else (17,)) for tc in range(32)]
@@ -333,6 +361,11 @@ def run(ctx):
 
 def replay(case):
     global TABLE
+    if case["kind"] == "pole":
+        r = call(getattr(pms.adsb, case["fn"]), *case["args"])
+        bad = (r[0] == "exc" and r[1] != "RuntimeError") or (r[0] == "ok" and r[1] is not None and not (
+            isinstance(r[1], tuple) and len(r[1]) == 2 and all(isinstance(x, float) and x == x for x in r[1])))
+        return [("adsb.%s:%s:breakpoint_latitude" % (case["fn"], r[1] if r[0] == "exc" else "malformed_result"), case)] if bad else []
     if case["kind"] == "again":
         return stateless(case["msg"])
     if case["kind"] == "call":
